@@ -260,9 +260,13 @@ Fixpoint order_flags (prev : option (Z * bytes)) (es : list rawent) (stack : lis
     end
   end.
 
-Definition fsck_entries (es : list rawent) : list fmsg :=
+(* es: the entries whose names, ids and mode texts are inspected; ord: the ones
+   that also reach the ordering / duplicate check (all of them when the tree
+   parses; all but the last decoded one when the NEXT entry fails to decode,
+   because fsck_tree advances the cursor before it compares) *)
+Definition fsck_with (es ord : list rawent) : list fmsg :=
   let any (p : rawent -> bool) := existsb p es in
-  let '(uns, dup) := order_flags None es [] false false in
+  let '(uns, dup) := order_flags None ord [] false false in
   (if any (fun e => is_zero_hash (r_oid e)) then [MNullSha1] else []) ++
   (if any (fun e => existsb (fun c => c =? 47) (r_name e)) then [MFullPathname] else []) ++
   (if any (fun e => beq (r_name e) [46]) then [MHasDot] else []) ++
@@ -272,11 +276,12 @@ Definition fsck_entries (es : list rawent) : list fmsg :=
   (if dup then [MDuplicateEntries] else []) ++
   (if uns then [MTreeNotSorted] else []) ++
   (if any (fun e => (Z.land (r_mode e) 61440 =? 40960)%Z && git_is_dotgitmodules (r_name e)) then [MGitmodulesSymlink] else []).
+Definition fsck_entries (es : list rawent) : list fmsg := fsck_with es es.
 
 (* the error-level messages of `git fsck --strict` for a tree object *)
 Definition git_fsck_tree (hsz : nat) (b : bytes) : list fmsg :=
   match git_parse_partial hsz b with
-  | (Some _, es) => MBadTree :: fsck_entries es      (* the entries walked before the failure are still checked *)
+  | (Some _, es) => MBadTree :: fsck_with es (removelast es)
   | (None, es) => fsck_entries es
   end.
 
